@@ -299,4 +299,8 @@ theorem decision_in_scope {al bl : List Entry} {a : Access} (h : newAccessCtx al
       simp only [he, false_or, Bool.false_eq_true] at hs
       simp [h1, hs]
 
+/-- `a` occurs in the event list, and before the first `b` (if any). -/
+def occursBefore (l : List Nat) (a b : Nat) : Bool :=
+  l.contains a && decide (l.findIdx (· == a) < l.findIdx (· == b))
+
 end AGH.C03
